@@ -513,6 +513,83 @@ impl C16 {
             }
         }
         rep.sig(&format!("l|{}|{}", name, needed));
+        // the reader itself over a history of calls (the decoders above stop at the first refusal):
+        // reads that fit, reads that are refused, new layers - against a budget model. At no point
+        // has more than the limit been pulled, a refused read pulls nothing and changes nothing.
+        {
+            let limit = rng.range(0, 40) as usize;
+            let base = rng.range(0, 50) as usize;
+            let r = shell::guarded(|| -> Result<(usize, usize), String> {
+                let inner = FailingReader {
+                    inner: Cursor::new(&bytes[..]),
+                    budget: usize::MAX,
+                    pulled: 0,
+                    chunk,
+                };
+                let mut lr = LimitedReader::new(inner, limit, LenSource::Ipv4HeaderTotalLen, base, Layer::IpAuthHeader);
+                let mut left = limit; // octets the limit still allows
+                let mut in_layer = 0usize; // octets read in the current layer
+                let mut layer_off = base;
+                let mut pos = 0usize; // position in `bytes`
+                let mut steps = 0usize;
+                let mut refusals = 0usize;
+                for _ in 0..12 {
+                    steps += 1;
+                    if rng.chance(1, 5) {
+                        lr.start_layer(Layer::Ipv6ExtHeader);
+                        layer_off += in_layer;
+                        in_layer = 0;
+                    }
+                    let k = match rng.below(4) {
+                        0 => left,
+                        1 => left + 1 + rng.below(3) as usize,
+                        _ => rng.range(0, 16) as usize,
+                    }
+                    .min(bytes.len() - pos);
+                    let mut buf = vec![0u8; k];
+                    let res = lr.read_exact(&mut buf);
+                    match res {
+                        Ok(()) => {
+                            if k > left {
+                                return Err(format!("step {}: a read of {} octets was accepted with {} of the limit {} left", steps, k, left, limit));
+                            }
+                            if buf[..] != bytes[pos..pos + k] {
+                                return Err(format!("step {}: a read of {} octets returned other octets than the source holds at {}", steps, k, pos));
+                            }
+                            left -= k;
+                            pos += k;
+                            in_layer += k;
+                        }
+                        Err(err::io::LimitedReadError::Len(l)) => {
+                            refusals += 1;
+                            if k <= left {
+                                return Err(format!("step {}: a read of {} octets was refused with {} of the limit left", steps, k, left));
+                            }
+                            if l.required_len != in_layer + k || l.len != in_layer + left || l.layer_start_offset != layer_off {
+                                return Err(format!("step {}: refusal {:?}, expected required_len {} len {} offset {}", steps, l, in_layer + k, in_layer + left, layer_off));
+                            }
+                        }
+                        Err(e) => return Err(format!("step {}: {:?}", steps, e)),
+                    }
+                    if lr.read_len() != in_layer || lr.layer_offset() != layer_off || lr.max_len() != in_layer + left {
+                        return Err(format!("step {}: reader state read_len {} layer_offset {} max_len {}, expected {} {} {}", steps, lr.read_len(), lr.layer_offset(), lr.max_len(), in_layer, layer_off, in_layer + left));
+                    }
+                }
+                let pulled = lr.take_reader().pulled;
+                if pulled != pos || pulled > limit {
+                    return Err(format!("{} octets pulled from the source, {} handed out, limit {}", pulled, pos, limit));
+                }
+                Ok((steps, refusals))
+            });
+            match r {
+                Err(p) => rep.violation(&format!("panic|LimitedReader|{}", p.location()), p.0, &bytes),
+                Ok(Err(e)) => rep.violation("limited_reader_history", format!("LimitedReader(limit {}, offset {}): {}", limit, base, e), &bytes),
+                Ok(Ok((steps, refusals))) => {
+                    rep.add("limited.history_steps", steps as u64);
+                    rep.add("limited.history_refusals", refusals as u64);
+                }
+            }
+        }
     }
 
     fn builder(&mut self, rep: &mut Report, rng: &mut Prng) {
